@@ -34,6 +34,11 @@ def cases(tier, seed):
                 continue
             for r in range(reps):
                 out.append(dict(cfg=cfg, family=fam, B=16, s=rnd.randrange(10**6)))
+    # near-coincident customers with a window that closes between them (distance helper under cancellation)
+    for cfg in envzoo.routing_configs((6, 10) if tier == "quick" else (6, 10, 20)):
+        if (cfg["env"] == "cvrptw" and not cfg.get("scale")) or (cfg["env"] == "mtvrp" and cfg.get("preset") in ("vrptw", "ovrptw", "vrpbltw", "all")):
+            for r in range(reps):
+                out.append(dict(cfg=cfg, family="twins", B=16, s=rnd.randrange(10**6)))
     # slow vehicles (speed < 1: the clock runs faster than the distance) on longer instances, where no-wait chains of several
     # customers end right at a deadline
     for cfg in envzoo.routing_configs((20,) if tier == "quick" else (20, 30)):
